@@ -65,8 +65,12 @@ def case(draw, tier="quick"):
         c[2, 0] = draw(st.sampled_from([0.0, 1e-4, 0.0]))
         c[2, 1] = draw(st.sampled_from([0.0, -3e-5, 0.0]))
         spec["cell"] = c.tolist()
-    # charges and coordinates with all six printed decimals in use
-    spec["charges"] = [round(c + (1 if c > 0 else -1) * 1e-6 * draw(st.integers(0, 499)), 6) for c in spec["charges"]]
+    if draw(st.integers(0, 9)) == 0 and spec["pos"]:
+        # hundreds of atoms (ids beyond 127 / 255 / 999 in every section) from a handful of draws
+        spec = gen_atoms.inflate(spec, draw(st.sampled_from([20, 40, 140])) // max(1, len(spec["pos"]) // 2) + 2)
+    else:
+        # charges and coordinates with all six printed decimals in use
+        spec["charges"] = [round(c + (1 if c > 0 else -1) * 1e-6 * draw(st.integers(0, 499)), 6) for c in spec["charges"]]
     norm = draw(st.booleans())
     if norm:
         spec["pair_coeffs"] = [normalise(c, "pair") for c in spec["pair_coeffs"]]
@@ -243,6 +247,7 @@ def oracle(c, stats):
     stats.count("style:" + style)
     stats.count("cell:%s" % ("none" if cell is None else "tilted" if tilted else "ortho"))
     stats.count("normalised:%s" % c["normalised"])
+    stats.count("atoms:%s" % ("1-30" if len(spec["pos"]) <= 30 else "31-127" if len(spec["pos"]) <= 127 else "128-255" if len(spec["pos"]) <= 255 else "256+"))
     stats.count("max-table-rows:%s" % ("10+" if max([len(spec["type_labels"])] + [len(spec[k + "_coeffs"]) for k in M.KINDS]) >= 10 else "<10"))
     gen_atoms.spec_stats(spec, stats)
     if len(spec["type_labels"]) >= 2 and any(spec[k + "_coeffs"] for k in M.KINDS) and (tilted or neg):
